@@ -115,13 +115,18 @@ impl ProtocolState {
         self.ss_active() ==> self.slow_start_ack_count as nat == self.ss_set().len()
     }
 
-    pub open spec fn wf(&self) -> bool {
+    // the table invariants (W0..W9); independent of the connection state machine
+    pub open spec fn wf_core(&self) -> bool {
         &&& self.next_packet_id >= 1
         &&& self.next_operation_id >= 1
         &&& self.wf_ops()
         &&& self.wf_alloc()
         &&& self.wf_pending()
         &&& self.wf_slow_start()
+    }
+
+    pub open spec fn wf(&self) -> bool {
+        &&& self.wf_core()
         // W10/W11: per-connection data exists in the states that read it
         &&& ((self.state == ProtocolStateType::Connected || self.state == ProtocolStateType::PendingDisconnect) ==> self.current_settings is Some)
         &&& (self.state == ProtocolStateType::PendingConnack ==> self.connack_timeout_timepoint is Some)
